@@ -162,6 +162,12 @@ DefectsD1 == {
   <<1, "exclusive choice conflict", [k |-> "lastchild", at |-> 9, p |-> ChoiceConflictXml]>>,
   <<1, "repeated single-occurrence element", [k |-> "dupchild", at |-> 3, p |-> "CATEGORY"]>>,
   <<1, "repeated single-occurrence element", [k |-> "dupchild", at |-> 13, p |-> "LENGTH"]>>,
+  \* the repetition is separated from the first occurrence by other sub elements
+  <<1, "repeated single-occurrence element (separated)", [k |-> "lastchild", at |-> 3, p |-> "<CATEGORY>TXT</CATEGORY>"]>>,
+  <<1, "repeated single-occurrence element (separated)", [k |-> "lastchild", at |-> 13, p |-> "<LENGTH>8</LENGTH>"]>>,
+  <<1, "repeated single-occurrence element (separated)", [k |-> "lastchild", at |-> 10, p |-> "<SHORT-NAME>s</SHORT-NAME>"]>>,
+  <<1, "repeated single-occurrence element (separated)", [k |-> "lastchild", at |-> 3, p |-> "<ELEMENTS/>"]>>,
+  <<1, "repeated single-occurrence element (separated)", [k |-> "child", at |-> 3, p |-> "<CATEGORY>TXT</CATEGORY>"]>>,
   <<1, "missing SHORT-NAME", [k |-> "dropchild", at |-> 10, p |-> "SHORT-NAME"]>>,
   <<1, "missing SHORT-NAME", [k |-> "dropchild", at |-> 3, p |-> "SHORT-NAME"]>>,
   <<1, "missing required attribute", [k |-> "dropattr", at |-> 17, p |-> "DEST"]>>,
@@ -182,6 +188,8 @@ DefectsD2 == {
   <<2, "attribute not in the file's version", [k |-> "attr", at |-> 7, p |-> "NAME-PATTERN=\"x\""]>>,
   <<2, "enum value not in the file's version", [k |-> "lastchild", at |-> 5, p |-> "<I-SIGNAL><SHORT-NAME>i</SHORT-NAME><DATA-TYPE-POLICY>TRANSFORMING-I-SIGNAL</DATA-TYPE-POLICY></I-SIGNAL>"]>>,
   <<2, "missing SHORT-NAME", [k |-> "dropchild", at |-> 9, p |-> "SHORT-NAME"]>>,
-  <<2, "repeated single-occurrence element", [k |-> "dupchild", at |-> 3, p |-> "ELEMENTS"]>> }
+  <<2, "repeated single-occurrence element", [k |-> "dupchild", at |-> 3, p |-> "ELEMENTS"]>>,
+  <<2, "repeated single-occurrence element (separated)", [k |-> "lastchild", at |-> 3, p |-> "<ELEMENTS/>"]>>,
+  <<2, "repeated single-occurrence element (separated)", [k |-> "lastchild", at |-> 9, p |-> "<SHORT-NAME>q</SHORT-NAME>"]>> }
 AllDefects == DefectsD1 \cup DefectsD2
 =============================================================================
